@@ -1,4 +1,5 @@
 import BurrowVerif.Model.Storage
+import BurrowVerif.Model.StorageConf
 import BurrowVerif.Model.Group
 import BurrowVerif.Model.Float32
 import BurrowVerif.Model.EvalCache
@@ -78,8 +79,35 @@ abbrev St := Option Store
 
 def bit? (s : String) : Option Bool := if s == "1" then some true else if s == "0" then some false else none
 
+def sconfSamples : List String := ["g0", "g1", "x1", "", "team-a", "g 3"]
+
+/-- a list key of an `sconf` op: `-` absent, `E` empty string, else a pattern whose matches on the samples are the bits -/
+def listKey? (key bits : String) : Option StorageConf.ListKey :=
+  if key == "-" then some .absent
+  else if key == "E" then some .empty
+  else if bits.length == sconfSamples.length then
+    some (.pattern fun g => match sconfSamples.findIdx? (· == g) with
+      | some i => bits.toList[i]? == some '1'
+      | none => false)
+  else none
+
+def optI? (s : String) : Option (Option Int) := if s == "-" then some none else (parseInt? s).map some
+
+def sconf (args : List String) : String :=
+  match args with
+  | [iv, exp, md, wk, qd, allow, deny, am, dm] =>
+    match optI? iv, optI? exp, optI? md, optI? wk, optI? qd, listKey? allow am, listKey? deny dm with
+    | some iv, some exp, some md, some wk, some qd, some allow, some deny =>
+      let spec : StorageConf.Spec := { intervals := iv, expireGroup := exp, minDistance := md, workers := wk, queueDepth := qd, allow, deny }
+      let s := spec.settings
+      let acc := String.join (sconfSamples.map fun g => if spec.accepts g then "1" else "0")
+      s!"sconf iv={s.intervals} exp={s.expireGroup} md={s.minDistance} wk={s.workers} qd={s.queueDepth} acc={acc}"
+    | _, _, _, _, _, _, _ => "bad-op"
+  | _ => "bad-op"
+
 def step (st : St) (args : List String) : St × String :=
   match args with
+  | "sconf" :: rest => (st, sconf rest)
   | ["init", intervals, expire, minDist, allowSet, denySet, clusters] =>
     match parseNat? intervals, parseInt? expire, parseInt? minDist, bit? allowSet, bit? denySet with
     | some intervals, some expireGroup, some minDistance, some allowSet, some denySet =>
@@ -338,6 +366,11 @@ def stepC (st : CSt) (args : List String) : CSt × String :=
         | some gs => renderGroupStatus (if showAll == "1" then gs else Group.filterView gs)
       (st', s!"rc={c} rg={g} {out} second={out.replace " " "~"} ~path={repr p}")
     | _, _, _ => (st, "bad-op")
+  | ["cburst", n, _, _] =>
+    -- n concurrent requests through the real coordinator: one reply each, rightly named (what they say is judged by cq)
+    match parseNat? n with
+    | some n => (st, s!"burst={n}/{n} named=ok extra=0")
+    | none => (st, "bad-op")
   | ["cbarrier"] => (st, "ok")
   | ["cstop"] => (st, "ok")
   | ["cbatch", kind, now, lanes] =>
